@@ -45,7 +45,14 @@ class World(object):
         self.fresh = 0
         self.hub = None
         if scn.hub:
-            self.hub = Hub()
+            if scn.collection:
+                # the dataset lives in a DataCollection: its hub also serves the link manager, which reacts
+                # to the same structural messages
+                from glue.core import DataCollection
+                self.dc = DataCollection([self.d])
+                self.hub = self.dc.hub
+            else:
+                self.hub = Hub()
             world = self
 
             class L(HubListener):
@@ -53,7 +60,8 @@ class World(object):
                     world.on_msg(m)
             self.listener = L()
             self.hub.subscribe(self.listener, Message)
-            self.d.register_to_hub(self.hub)
+            if not scn.collection:
+                self.d.register_to_hub(self.hub)
 
     def on_msg(self, m):
         name = type(m).__name__
@@ -100,7 +108,8 @@ class World(object):
 class Scenario(object):
 
     def __init__(self, hub=True, refresh=('same', 'newshape', 'newcomps', 'newdim'), coords=True,
-                 dup_label=True, shape=(3,)):
+                 dup_label=True, shape=(3,), collection=False):
+        self.collection = collection
         self.shape = shape
         self.hub = hub
         self.refresh = refresh
@@ -443,9 +452,12 @@ def tiers(tier):
         return [('hub', Scenario(hub=True), 3), ('nohub', Scenario(hub=False, dup_label=False), 3),
                 ('hub-norefresh', Scenario(hub=True, refresh=(), dup_label=False), 4),
                 ('hub-2d', Scenario(hub=True, dup_label=False, shape=(2, 2)), 3),
+                ('in-collection', Scenario(hub=True, dup_label=False, collection=True), 3),
                 ('hub-3d-coords', Scenario(hub=True, dup_label=False, refresh=('same',), shape=(2, 1, 2)), 3)]
     return [('hub', Scenario(hub=True), 4), ('nohub', Scenario(hub=False), 4),
             ('hub-norefresh', Scenario(hub=True, refresh=()), 5),
+            ('in-collection', Scenario(hub=True, collection=True), 4),
+            ('in-collection-2d', Scenario(hub=True, collection=True, dup_label=False, shape=(2, 2)), 4),
             ('hub-2d', Scenario(hub=True, shape=(2, 2)), 4), ('nohub-2d', Scenario(hub=False, shape=(2, 2)), 4),
             ('hub-3d-coords', Scenario(hub=True, dup_label=False, refresh=('same', 'newcomps'), shape=(2, 1, 2)), 4)]
 
